@@ -1,4 +1,7 @@
-use super::swift_utils::{parse_amount, parse_currency, parse_date_yymmdd, parse_exact_length};
+use super::swift_utils::{
+    format_swift_amount_for_currency, parse_amount_with_currency, parse_currency,
+    parse_date_yymmdd, parse_exact_length,
+};
 use crate::errors::ParseError;
 use crate::traits::SwiftField;
 use chrono::NaiveDate;
@@ -99,7 +102,7 @@ impl SwiftField for Field62F {
 
         // Parse amount (remaining characters)
         let amount_str = &input[10..];
-        let amount = parse_amount(amount_str)?;
+        let amount = parse_amount_with_currency(amount_str, &currency)?;
 
         Ok(Field62F {
             debit_credit_mark,
@@ -115,7 +118,7 @@ impl SwiftField for Field62F {
             self.debit_credit_mark,
             self.value_date.format("%y%m%d"),
             self.currency,
-            format!("{:.2}", self.amount).replace('.', ",")
+            format_swift_amount_for_currency(self.amount, &self.currency)
         )
     }
 }
@@ -156,7 +159,7 @@ impl SwiftField for Field62M {
 
         // Parse amount (remaining characters)
         let amount_str = &input[10..];
-        let amount = parse_amount(amount_str)?;
+        let amount = parse_amount_with_currency(amount_str, &currency)?;
 
         Ok(Field62M {
             debit_credit_mark,
@@ -172,7 +175,7 @@ impl SwiftField for Field62M {
             self.debit_credit_mark,
             self.value_date.format("%y%m%d"),
             self.currency,
-            format!("{:.2}", self.amount).replace('.', ",")
+            format_swift_amount_for_currency(self.amount, &self.currency)
         )
     }
 }
